@@ -18,17 +18,18 @@
 EXTENDS Cache, IOUtils
 Trace == JsonDeserialize(IOEnv.TRACE_FILE)
 VARIABLES hi, j
-tvars == <<lens, nc, shape, ver, file, stored, intr, ph, rc, L, pos, out, pulled, wpre, wmid, h, hi, j>>
+tvars == <<lens, nc, shape, ver, file, stored, intr, ph, rc, L, eager, pos, out, pulled, wpre, wmid, h, hi, j>>
 Ev == Trace[hi].ev
 TInit == /\ hi \in 1..Len(Trace) /\ j = 1
          /\ InitWith(Trace[hi].lens, Trace[hi].nc, Trace[hi].shape)
-\* a run fed by cache l touches nothing before l
-Untouched(l, e) == l > 0 => e.pulled = 0 /\ e.wpre = 0 /\ (l = 2 => e.wmid = 0)
+\* a run fed by cache l touches nothing before l (inside a Split, eg, the source is read by Split.run itself)
+UntouchedE(l, eg, e) == l > 0 => (eg \/ e.pulled = 0) /\ e.wpre = 0 /\ (l = 2 => e.wmid = 0)
+Untouched(l, e) == UntouchedE(l, eager, e)
 Match(e) ==
   \/ e.cmd = "new" /\ e.res = "ok" /\ New(e.rc)
   \/ e.cmd = "drop" /\ e.c \in 1..nc /\ (file[e.c].k = "F" => e.res = "ok") /\ Drop(e.c)
   \/ e.cmd = "data" /\ ChangeData
-  \/ e.cmd = "start" /\ e.res = "ok" /\ Start(e.a) /\ Untouched(L', e)
+  \/ e.cmd = "start" /\ e.res = "ok" /\ Start(e.a) /\ UntouchedE(L', eager', e)
   \/ e.cmd = "next" /\ e.res = "val" /\ Deliver /\ e.v = Cur[pos + 1] /\ Untouched(L, e)
   \/ e.cmd = "next" /\ e.res = "stop" /\ Exhaust /\ Untouched(L, e)
   \/ e.cmd = "next" /\ e.res = "inj" /\ e.a \in Sites /\ RaiseAt(e.a) /\ Untouched(L, e)
